@@ -31,13 +31,14 @@ func kitchenModel() *model.Schema {
 		{Kind: model.KObject, Name: "Q", Fields: []*model.FieldDef{f("a", "String"), f("o", "O"), f("l", "[O!]!"), f("i", "I"), f("u", "U"), f("ul", "[U]"), f("e", "E"),
 			f("n", "String", arg("x", "N", nil), arg("y", "[Int!]", nil), arg("z", "E", model.Enum("V0")), arg("w", "C", nil)),
 			f("self", "Q"), f("nn", "String!"), f("f", "Float"), f("id", "ID"), f("b", "Boolean"), f("int", "Int"), f("req", "String", arg("r", "Int!", nil)), f("ll", "[[Int]]"),
-			f("many", "String", arg("v", "[N]", nil), arg("vv", "[[N!]]", nil))}},
+			f("many", "String", arg("v", "[N]", nil), arg("vv", "[[N!]]", nil)),
+			f("strs", "String", arg("a", "[String]", nil), arg("b", "[String]", nil), arg("c", "N", nil), arg("d", "N", nil))}},
 		{Kind: model.KObject, Name: "M", Fields: []*model.FieldDef{f("a", "String"), f("set", "Int", arg("x", "Int", nil)), f("o", "O")}},
 		{Kind: model.KObject, Name: "S", Fields: []*model.FieldDef{f("a", "String"), f("ev", "O", arg("n", "Int", nil))}},
 	}}
 }
 
-var kitchenVocabulary = []string{"many", "v", "vv", "a", "o", "l", "i", "u", "ul", "e", "n", "self", "nn", "f", "id", "b", "int", "req", "ll", "x", "y", "z", "w", "r", "p", "set", "ev",
+var kitchenVocabulary = []string{"many", "v", "vv", "strs", "c", "d", "a", "o", "l", "i", "u", "ul", "e", "n", "self", "nn", "f", "id", "b", "int", "req", "ll", "x", "y", "z", "w", "r", "p", "set", "ev",
 	"Q", "O", "P", "I", "U", "E", "N", "C", "M", "S", "V0", "V1", "Int", "String", "Boolean", "ID", "Float", "skip", "include", "if", "deprecated", "__typename", "__schema", "__type", "name", "types", "fields", "kind",
 	"on", "true", "false", "null", "query", "mutation", "subscription", "fragment", "F", "G", "v", "k1"}
 
@@ -51,7 +52,7 @@ var (
 func kitchen() (*build.Built, error) {
 	kitchenOnce.Do(func() {
 		m := kitchenModel()
-		w := &ref.World{S: m, Salt: 7, NullRate: 6, MaxList: 2}
+		w := &ref.World{S: m, Salt: 7, NullRate: 6, MaxList: 2, ThunkRate: 4} // a quarter of the fields and list elements are deferred values
 		kitchenBuilt, kitchenErr = build.New(m, w, build.Options{Subscribe: func(defType, field string) graphql.FieldResolveFn {
 			return func(p graphql.ResolveParams) (interface{}, error) {
 				ch := make(chan interface{}, 2)
